@@ -73,10 +73,18 @@ def cases(seed, tier):
         if rng.random() < 0.2 and marker == 'own':
             kex.append(other)
         rng.shuffle(kex)
-        prof = {'banner': rng.choice(['SSH-2.0-OpenSSH_9.6', 'SSH-2.0-OpenSSH_8.9p1', 'SSH-2.0-dropbear_2022.83', 'SSH-2.0-Sim_1.0']), 'kex': kex,
+        prof = {'banner': rng.choice(BANNERS[role]), 'kex': kex,
                 'key': ['ssh-ed25519'], 'enc': enc, 'mac': mac, 'comp': ['none'], 'keys': {'ssh-ed25519': {}}}
         yield {'cell': cell, 'role': role, 'marker': marker, 'profile': prof, 'opts': rng.choice([['-n'], ['-n'], ['-j'], ['-n', '-b'], ['-n', '-v']]),
                'nets': [{'rtt_us': 200}, gen.rand_net(rng)] if rng.random() < 0.3 else [{'rtt_us': 200}], 'pseed': rng.getrandbits(32)}
+
+
+# the rule is about the lists, not about who the peer says it is: every software family the tool treats specially somewhere
+BANNERS = {'server': ['SSH-2.0-OpenSSH_9.6', 'SSH-2.0-OpenSSH_8.9p1', 'SSH-2.0-dropbear_2022.83', 'SSH-2.0-Sim_1.0', 'SSH-2.0-libssh_0.10.6', 'SSH-2.0-tinyssh_noversion',
+                      'SSH-2.0-Cisco-1.25', 'SSH-2.0-RomSShell_5.40', 'SSH-2.0-OpenSSH_for_Windows_9.5', 'SSH-2.0-AsyncSSH_2.14.2', 'SSH-1.99-OpenSSH_7.4'],
+           'client': ['SSH-2.0-OpenSSH_9.6', 'SSH-2.0-OpenSSH_8.9p1', 'SSH-2.0-dropbear_2022.83', 'SSH-2.0-Sim_1.0', 'SSH-2.0-PuTTY_Release_0.80', 'SSH-2.0-PuTTY_Release_0.76',
+                      'SSH-2.0-libssh_0.10.6', 'SSH-2.0-libssh2_1.11.0', 'SSH-2.0-WinSCP_release_6.1.2', 'SSH-2.0-paramiko_3.4.0', 'SSH-2.0-Go', 'SSH-2.0-JSCH_0.2.16',
+                      'SSH-2.0-AsyncSSH_2.14.2']}
 
 
 def sample(case):
